@@ -14,12 +14,18 @@ pairs = json.load(open(sys.argv[1]))
 order = list(range(len(pairs)))
 if len(sys.argv) > 2 and sys.argv[2] == 'reversed':
     order.reverse()
+if len(sys.argv) > 2 and sys.argv[2] == 'bysize':
+    order.sort(key=lambda k: (-len(pairs[k][1]) - len(pairs[k][2]), k))
 out = [None] * len(pairs)
 for k in order:
     lang, x, y = pairs[k]
-    g = en if lang == 'en' else ja
+    g = en if lang.startswith('en') else ja
     try:
-        rs = g.apply_binary_rules(Category.parse(x), Category.parse(y))
+        if lang.endswith('-unary'):
+            import gen
+            rs = gen.grammar(lang[:2])[1](Category.parse(x))
+        else:
+            rs = g.apply_binary_rules(Category.parse(x), Category.parse(y))
         out[k] = [[str(r.cat), r.op_string, r.op_symbol, r.head_is_left] for r in rs]
     except Exception as e:
         out[k] = 'ERR:' + type(e).__name__
@@ -110,6 +116,11 @@ def run(ctx):
                 want = G.sig(out1) if key in seen else ()
                 if outs[0] != 'ok' or G.sig(outs) != want:
                     ctx.fail('seen_filter', f'{lang}: with a seen-rule set {"containing" if key in seen else "not containing"} the pair, ({x}, {y}) gives {G.sig(outs)}, expected {want}', data)
+            if lang == 'en' and key != (x, y):
+                # a set holding the pair AS GIVEN (marks not erased) does not contain the erased pair: nothing is licensed
+                outs = G.call(mod.apply_binary_rules, x, y, {(x, y)})
+                if outs != ('ok', []):
+                    ctx.fail('seen_filter', f'en: the seen-rule set {{({x}, {y})}} does not contain the erased pair ({key[0]}, {key[1]}), yet ({x}, {y}) gives {G.sig(outs)}', data)
             if lang == 'en':
                 outn = G.call(mod.apply_binary_rules, x.clear_features('nb'), y.clear_features('nb'))
                 if G.sig(outn) != G.sig(out1):
@@ -125,6 +136,9 @@ def run(ctx):
         # unary rules: exactly the configured targets, in order; nothing for others
         for k, targets_ in table.items():
             out = G.call(unary, k)
+            again = G.call(unary, k)
+            if G.sig(out) != G.sig(again):
+                ctx.fail('not_repeatable', f'{lang}: two calls of apply_unary_rules({k}) returned different lists: {G.sig(out)} then {G.sig(again)}', {'lang': lang, 'x': str(k)})
             if out[0] != 'ok' or [r.cat for r in out[1]] != targets_:
                 ctx.fail('unary_not_exact', f'{lang}: apply_unary_rules({k}) does not return exactly the configured targets', {'lang': lang, 'x': str(k)})
             cases.append(f'Un{"En" if lang == "en" else "Ja"} {gcat(k)} {G.gtable(table)} {G.gresult(out)}')
@@ -187,6 +201,9 @@ def run(ctx):
                     n_tw += 1
     ctx.stats['twin_pairs'] = n_tw
     seed_pairs += [['en', 'S[X]/(NP[X]/N[X])', '(NP[conj]/N[num])/PP'], ['en', '(S[X]\\NP[X])/NP[X]', 'NP[conj]'], ['en', 'NP[nb]/N', 'N[num]']]
+    # the unary rules of both grammars over every key of the shipped tables: same answers in every process and in every order of asking
+    for lang_ in ('en', 'ja'):
+        seed_pairs += [[lang_ + '-unary', str(k_), ''] for k_ in gen.grammar(lang_)[2]]
     pf = os.path.join(ctx.work, 'seed_pairs.json')
     json.dump(seed_pairs, open(pf, 'w'))
     sf = os.path.join(ctx.work, 'seed_script.py')
@@ -205,17 +222,26 @@ def run(ctx):
     o, _ = prev.communicate()
     rev = json.loads((o.strip().splitlines() or ['[]'])[-1])
     fwd = json.loads(base or '[]')
+    p3 = subprocess.run([sys.executable, '-B', sf, pf, 'bysize'], env=dict(os.environ, PYTHONHASHSEED='0'), stdout=subprocess.PIPE, stderr=subprocess.DEVNULL, text=True)
+    big = json.loads((p3.stdout.strip().splitlines() or ['[]'])[-1])
+    for k in range(min(len(big), len(fwd))):
+        if big[k] != fwd[k] and (k >= len(rev) or rev[k] == fwd[k]):
+            rev = list(rev) + [None] * (k + 1 - len(rev))
+            rev[k] = big[k]         # reported below as an order dependence
     for k in range(min(len(rev), len(fwd))):
         if rev[k] != fwd[k]:
-            ctx.fail('history_dependence', f'{seed_pairs[k][0]}: apply_binary_rules({seed_pairs[k][1]}, {seed_pairs[k][2]}) returns {fwd[k]} when the list of pairs is evaluated in order '
-                     f'and {rev[k]} when it is evaluated in reverse order (fresh interpreter each): the answer depends on which other pairs were asked before',
+            ctx.fail('history_dependence', f'{seed_pairs[k][0]}: rules applied to ({seed_pairs[k][1]}, {seed_pairs[k][2] or "-"}) return {fwd[k]} when the list of pairs is evaluated in order '
+                     f'and {rev[k]} when it is evaluated in another order (reversed / longest categories first; fresh interpreter each): the answer depends on which other pairs were asked before',
                      {'lang': seed_pairs[k][0], 'x': seed_pairs[k][1], 'y': seed_pairs[k][2]})
             break
     # history independence: what this (long-running) process returns now for the same pairs, after thousands of other calls, must be
     # what a fresh interpreter returns
     def here(lang, x, y):
         try:
-            rs = (en if lang == 'en' else ja).apply_binary_rules(Category.parse(x), Category.parse(y))
+            if lang.endswith('-unary'):
+                rs = gen.grammar(lang[:2])[1](Category.parse(x))
+            else:
+                rs = (en if lang == 'en' else ja).apply_binary_rules(Category.parse(x), Category.parse(y))
             return [[str(r.cat), r.op_string, r.op_symbol, r.head_is_left] for r in rs]
         except Exception as e:      # noqa
             return 'ERR:' + type(e).__name__
